@@ -11,7 +11,9 @@ package main
 
 import st "honnef.co/go/tools/structlayout"
 
-func c19Fields(n int) []st.Field {
+func c19Fields(n int) []st.Field { return c19FieldsK(n, 1<<24) }
+
+func c19FieldsK(n int, kmax int64) []st.Field {
 	fs := make([]st.Field, n)
 	for i := range fs {
 		sh := int(nondetUint8())
@@ -19,7 +21,7 @@ func c19Fields(n int) []st.Field {
 		a := int64(1) << uint(vconcrete(sh))
 		k := nondetInt64()
 		vassume(k >= 0)
-		vassume(k < 1<<24)
+		vassume(k < kmax)
 		fs[i].Size = k * a // a type's size is a multiple of its alignment ...
 		if i == n-1 && nondetBool() {
 			// ... except that structlayout reports a struct's trailing zero-size
@@ -65,8 +67,10 @@ func c19CheckLayout(out []st.Field, in []st.Field) {
 	vassert(pos%maxAlign == 0, "total size is a multiple of the struct alignment")
 }
 
-func c19Optimize(n int) {
-	fs := c19Fields(n)
+func c19Optimize(n int) { c19OptimizeK(n, 1<<24) }
+
+func c19OptimizeK(n int, kmax int64) {
+	fs := c19FieldsK(n, kmax)
 	orig := append([]st.Field(nil), fs...)
 	before := size(pad(append([]st.Field(nil), fs...)))
 	optimize(fs)
@@ -82,7 +86,7 @@ func c19Optimize(n int) {
 func Harness_C19_optimize_n1() { c19Optimize(1) }
 func Harness_C19_optimize_n2() { c19Optimize(2) }
 func Harness_C19_optimize_n3() { c19Optimize(3) }
-func Harness_C19_optimize_n4() { c19Optimize(4) }
+func Harness_C19_optimize_n4() { c19OptimizeK(4, 64) }
 
 // default mode (without -r): the flat field list of a struct is first
 // combined into one entry per top-level field (combine), then optimized.
